@@ -247,9 +247,29 @@ pub struct SubFileSizes {
 
 impl SubFileSizes {
     /// Calculate the valid value of lf, given all of the other fields.
+    ///
+    /// If the value does not fit in 16 bits, the closest 16-bit value is returned.
     pub fn valid_lf(&self) -> i16 {
+        self.valid_lf_wide()
+            .clamp(i16::MIN.into(), i16::MAX.into())
+            .try_into()
+            .expect("the value has been clamped to the range of i16")
+    }
+
+    /// Same as [`SubFileSizes::valid_lf`], but calculated without overflowing.
+    fn valid_lf_wide(&self) -> i32 {
         let s = self;
-        6 + s.lh + (s.ec - s.bc + 1) + s.nw + s.nh + s.nd + s.ni + s.nl + s.nk + s.ne + s.np
+        let w = |i: i16| -> i32 { i.into() };
+        6 + w(s.lh)
+            + (w(s.ec) - w(s.bc) + 1)
+            + w(s.nw)
+            + w(s.nh)
+            + w(s.nd)
+            + w(s.ni)
+            + w(s.nl)
+            + w(s.nk)
+            + w(s.ne)
+            + w(s.np)
     }
 }
 
@@ -377,9 +397,17 @@ impl<'a> RawFile<'a> {
             }
         }
         let s: SubFileSizes = {
-            let sb: [u8; 24] = b
-                .get(0..24)
-                .expect("3 < lf <= b.len()")
+            let Some(sb) = b.get(0..24) else {
+                // lf is 4 or 5 and the file is not longer than it claims.
+                return (
+                    Err(DeserializationError::InternalFileLengthIsTooSmall(
+                        lf,
+                        b.len(),
+                    )),
+                    vec![],
+                );
+            };
+            let sb: [u8; 24] = sb
                 .try_into()
                 .expect("slice has 24 elements so fits in 24 length const array");
             sb.into()
@@ -444,7 +472,7 @@ impl<'a> RawFile<'a> {
                 warnings,
             );
         }
-        if s.lf != s.valid_lf() {
+        if i32::from(s.lf) != s.valid_lf_wide() {
             return (
                 Err(DeserializationError::InconsistentSubFileSizes(s.clone())),
                 warnings,
